@@ -86,6 +86,9 @@ func vtC16Node(k int64) string {
 }
 
 func vtC16PodEvictorExec(in []int64) []int64 {
+	if len(in) < 9 || in[0] != 0 {
+		return []int64{} // not an input of this stream (e.g. a replay file of another C16 stream)
+	}
 	dry, capNode, capNs := in[1] != 0, in[2], in[3]
 	n, m, t := int(in[5]), int(in[6]), int(in[7])
 	reqs := in[8 : 8+3*t]
